@@ -1,6 +1,7 @@
 package main
 
 import (
+	"os"
 	"fmt"
 	"go/token"
 	"go/types"
@@ -342,6 +343,7 @@ func rulePosAdvance(p *Prog, r *Report) {
 		}
 	}
 	decodeSequence(p, r, rule)
+	decodeShortList(p, r, rule)
 	r.Floor(rule, 6)
 }
 
@@ -1420,4 +1422,109 @@ func decodeSequence(p *Prog, r *Report, rule string) {
 	} else {
 		r.ok(rule, key, pos, "evaluated on a list of three items whose length fields have 2, 1 and 3 bytes: every item is built with its own length, the list with three elements, and the decoder ends at the end of the text")
 	}
+}
+
+// decodeShortList: a list that declares more elements than the text holds is
+// not a well-formed item. The item decoder is evaluated on concrete texts
+// that end at an element boundary before the declared count is reached (and
+// on the complete texts next to them): it must refuse the short ones and
+// accept the complete ones.
+func decodeShortList(p *Prog, r *Report, rule string) {
+	key := rule + ":hsms.parseMessageText:short-list"
+	fn := p.Func("hsms", "(*parser).parseMessageText")
+	if fn == nil {
+		r.unk(rule, key, "", "(*parser).parseMessageText not found")
+		return
+	}
+	pos := p.Pos(fn.Pos())
+	const at = 14
+	type sample struct {
+		what   string
+		bytes  []int64
+		accept bool
+		list   string // the outermost list built when accepted
+	}
+	samples := []sample{
+		{"L[2] holding one U1", []int64{0x01, 2, 0xA5, 1, 7}, false, ""},
+		{"L[2] holding two U1", []int64{0x01, 2, 0xA5, 1, 7, 0xA5, 1, 8}, true, "NewListNode/2"},
+		{"L[1] holding nothing", []int64{0x01, 1}, false, ""},
+		{"L[0]", []int64{0x01, 0}, true, "NewListNode/0"},
+		{"L[3] holding two empty lists", []int64{0x01, 3, 0x01, 0, 0x01, 0}, false, ""},
+		{"L[3] holding three empty lists", []int64{0x01, 3, 0x01, 0, 0x01, 0, 0x01, 0}, true, "NewListNode/3"},
+		{"L[1] holding L[2] holding one binary byte", []int64{0x01, 1, 0x01, 2, 0x21, 1, 9}, false, ""},
+		{"L[1] holding L[2] holding two binary items", []int64{0x01, 1, 0x01, 2, 0x21, 1, 9, 0x21, 0}, true, "NewListNode/1"},
+	}
+	var probs, undec []string
+	for _, sm := range samples {
+		in := decoderInterp(p)
+		in.Recursion = 2
+		total := at + len(sm.bytes)
+		in.InitBind["p0.pos"] = int64Val(at)
+		in.PathBind["p0.msgLength"] = int64Val(int64(total - 4))
+		in.PathBind["len(p0.input)"] = int64Val(int64(total))
+		for i, b := range sm.bytes {
+			in.PathBind[fmt.Sprintf("p0.input[%d]", at+i)] = int64Val(b)
+		}
+		last := ""
+		in.OnCall = func(call *ssa.Call, callee *ssa.Function, a []Val, fr *frame) {
+			if callee.Name() == "NewListNode" && len(a) > 0 {
+				if l := a[len(a)-1]; l.K == KSlice && l.Len >= 0 {
+					last = fmt.Sprintf("NewListNode/%d", l.Len)
+				} else if l.K == KNil {
+					last = "NewListNode/0"
+				} else {
+					last = "NewListNode/?"
+				}
+			}
+		}
+		out := in.Run(fn, defaultArgs(fn), nil)
+		if os.Getenv("SC_TRACE8") != "" {
+			fmt.Fprintf(os.Stderr, "%s: stuck=%v panic=%v rets=%v last=%s\n", sm.what, in.Stuck, out.CanPanic, out.Frame.ReturnVals(), last)
+		}
+		if len(in.Stuck) > 0 || out.Frame == nil {
+			undec = append(undec, sm.what+": evaluation stuck")
+			continue
+		}
+		canOK, canFail := false, false
+		for _, rv := range out.Frame.ReturnVals() {
+			if len(rv) == 2 && rv[1].K == KBool {
+				if rv[1].B {
+					canOK = true
+				} else {
+					canFail = true
+				}
+			} else {
+				canOK, canFail = true, true
+			}
+		}
+		if len(out.Frame.ReturnVals()) == 0 && out.CanPanic {
+			canFail = true // no return is reached: the panic is turned into a refusal by the caller's recover
+		}
+		switch {
+		case canOK && canFail:
+			undec = append(undec, fmt.Sprintf("%s (%s): the evaluation does not decide between acceptance and refusal", sm.what, hexOf(sm.bytes)))
+		case sm.accept && !canOK:
+			probs = append(probs, fmt.Sprintf("%s (%s) is refused", sm.what, hexOf(sm.bytes)))
+		case !sm.accept && canOK:
+			probs = append(probs, fmt.Sprintf("%s (%s) is accepted although the text ends before the declared number of elements", sm.what, hexOf(sm.bytes)))
+		case sm.accept && last != sm.list:
+			probs = append(probs, fmt.Sprintf("%s (%s) is built as %s", sm.what, hexOf(sm.bytes), last))
+		}
+	}
+	switch {
+	case len(probs) > 0:
+		r.bad(rule, key, pos, strings.Join(firstN(probs, 3), "; "))
+	case len(undec) > 0:
+		r.unk(rule, key, pos, strings.Join(firstN(undec, 3), "; "))
+	default:
+		r.ok(rule, key, pos, fmt.Sprintf("evaluated on %d concrete texts: a list whose text ends at an element boundary before the declared count is refused (also one level down), the complete text next to it is accepted with the declared count", len(samples)))
+	}
+}
+
+func hexOf(bs []int64) string {
+	var parts []string
+	for _, b := range bs {
+		parts = append(parts, fmt.Sprintf("%02x", b))
+	}
+	return strings.Join(parts, " ")
 }
